@@ -81,6 +81,7 @@ type lexer struct {
 	comments []*ast.Comment
 	cmdSubst rune
 	token    chan ast.Node
+	req      chan struct{}
 	done     chan struct{}
 
 	mu     sync.Mutex
@@ -109,6 +110,8 @@ func newLexer(env *interp.ExecEnv, name string, r io.RuneScanner) *lexer {
 		name:    name,
 		r:       r,
 		token:   make(chan ast.Node),
+		req:     make(chan struct{}),
+		done:    make(chan struct{}),
 		cancel:  make(chan struct{}),
 		heredoc: heredoc{c: make(chan struct{}, 1)},
 		line:    1,
@@ -120,6 +123,11 @@ func newLexer(env *interp.ExecEnv, name string, r io.RuneScanner) *lexer {
 }
 
 func (l *lexer) Lex(lval *yySymType) int {
+	// request the next token
+	select {
+	case l.req <- struct{}{}:
+	case <-l.done:
+	}
 	switch tok := (<-l.token).(type) {
 	case token:
 		l.last.Store(tok.Pos())
@@ -136,9 +144,7 @@ func (l *lexer) Lex(lval *yySymType) int {
 func (l *lexer) run() {
 	defer func() {
 		close(l.token)
-		if l.done != nil {
-			close(l.done)
-		}
+		close(l.done)
 
 		if e := recover(); e != nil && e != bailout {
 			// re-panic
@@ -146,9 +152,26 @@ func (l *lexer) run() {
 		}
 	}()
 
+	l.wait()
 	for action := l.lexPipeline; action != nil; {
 		action = action()
 	}
+}
+
+// wait blocks until the parser requests the next token, so that the
+// lexer never runs ahead of the parser.
+func (l *lexer) wait() {
+	select {
+	case <-l.req:
+		select {
+		case <-l.cancel:
+		default:
+			return
+		}
+	case <-l.cancel:
+	}
+	// bailout
+	panic(bailout)
 }
 
 func (l *lexer) lexPipeline() action {
@@ -643,8 +666,8 @@ func (l *lexer) lexToken(tok int) action {
 		}
 	case ')', RAE:
 		if l.cmdSubst != 0 && len(l.stack) == 1 {
-			l.emit(tok)
 			l.stack = nil
+			l.emit(tok)
 			break
 		}
 		fallthrough
@@ -1505,6 +1528,7 @@ func (l *lexer) scanCmdSubst(r rune) bool {
 			r:        l.r,
 			cmdSubst: r,
 			token:    make(chan ast.Node),
+			req:      make(chan struct{}),
 			done:     make(chan struct{}),
 			cancel:   make(chan struct{}),
 			heredoc:  heredoc{c: make(chan struct{}, 1)},
@@ -1666,6 +1690,7 @@ func (l *lexer) emit(typ int) {
 		// bailout
 		panic(bailout)
 	}
+	l.wait()
 	l.mark(0)
 }
 
